@@ -50,65 +50,86 @@ example : (exec ⟨fun t => t < 40, fun _ => false, fun _ => 0⟩ 200 real_ga_v0
 theorem real_ga_v0_balanced : balanced real_ga_v0 = true := by decide
 theorem real_ga_v1_balanced : balanced real_ga_v1 = true := by decide
 theorem real_ga_v2_balanced : balanced real_ga_v2 = true := by decide
+theorem real_ga_v3_balanced : balanced real_ga_v3 = true := by decide
 theorem binary_ga_v0_balanced : balanced binary_ga_v0 = true := by decide
 theorem binary_ga_v1_balanced : balanced binary_ga_v1 = true := by decide
 theorem binary_ga_v2_balanced : balanced binary_ga_v2 = true := by decide
+theorem binary_ga_v3_balanced : balanced binary_ga_v3 = true := by decide
 theorem real_es_v0_balanced : balanced real_es_v0 = true := by decide
 theorem real_es_v1_balanced : balanced real_es_v1 = true := by decide
 theorem real_es_v2_balanced : balanced real_es_v2 = true := by decide
+theorem real_es_v3_balanced : balanced real_es_v3 = true := by decide
 theorem real_de_v0_balanced : balanced real_de_v0 = true := by decide
 theorem real_de_v1_balanced : balanced real_de_v1 = true := by decide
 theorem real_de_v2_balanced : balanced real_de_v2 = true := by decide
+theorem real_de_v3_balanced : balanced real_de_v3 = true := by decide
 theorem real_pso_v0_balanced : balanced real_pso_v0 = true := by decide
 theorem real_pso_v1_balanced : balanced real_pso_v1 = true := by decide
 theorem real_pso_v2_balanced : balanced real_pso_v2 = true := by decide
+theorem real_pso_v3_balanced : balanced real_pso_v3 = true := by decide
 theorem real_sa_v0_balanced : balanced real_sa_v0 = true := by decide
 theorem real_sa_v1_balanced : balanced real_sa_v1 = true := by decide
 theorem real_sa_v2_balanced : balanced real_sa_v2 = true := by decide
+theorem real_sa_v3_balanced : balanced real_sa_v3 = true := by decide
 theorem permutation_sa_v0_balanced : balanced permutation_sa_v0 = true := by decide
 theorem permutation_sa_v1_balanced : balanced permutation_sa_v1 = true := by decide
 theorem permutation_sa_v2_balanced : balanced permutation_sa_v2 = true := by decide
+theorem permutation_sa_v3_balanced : balanced permutation_sa_v3 = true := by decide
 theorem real_ls_v0_balanced : balanced real_ls_v0 = true := by decide
 theorem real_ls_v1_balanced : balanced real_ls_v1 = true := by decide
 theorem real_ls_v2_balanced : balanced real_ls_v2 = true := by decide
+theorem real_ls_v3_balanced : balanced real_ls_v3 = true := by decide
 theorem permutation_ls_v0_balanced : balanced permutation_ls_v0 = true := by decide
 theorem permutation_ls_v1_balanced : balanced permutation_ls_v1 = true := by decide
 theorem permutation_ls_v2_balanced : balanced permutation_ls_v2 = true := by decide
+theorem permutation_ls_v3_balanced : balanced permutation_ls_v3 = true := by decide
 theorem real_ils_v0_balanced : balanced real_ils_v0 = false := by decide
 theorem real_ils_v1_balanced : balanced real_ils_v1 = false := by decide
 theorem real_ils_v2_balanced : balanced real_ils_v2 = false := by decide
+theorem real_ils_v3_balanced : balanced real_ils_v3 = false := by decide
 theorem permutation_ils_v0_balanced : balanced permutation_ils_v0 = false := by decide
 theorem permutation_ils_v1_balanced : balanced permutation_ils_v1 = false := by decide
 theorem permutation_ils_v2_balanced : balanced permutation_ils_v2 = false := by decide
+theorem permutation_ils_v3_balanced : balanced permutation_ils_v3 = false := by decide
 theorem real_rs_v0_balanced : balanced real_rs_v0 = true := by decide
 theorem real_rs_v1_balanced : balanced real_rs_v1 = true := by decide
 theorem real_rs_v2_balanced : balanced real_rs_v2 = true := by decide
+theorem real_rs_v3_balanced : balanced real_rs_v3 = true := by decide
 theorem permutation_rs_v0_balanced : balanced permutation_rs_v0 = true := by decide
 theorem permutation_rs_v1_balanced : balanced permutation_rs_v1 = true := by decide
 theorem permutation_rs_v2_balanced : balanced permutation_rs_v2 = true := by decide
+theorem permutation_rs_v3_balanced : balanced permutation_rs_v3 = true := by decide
 theorem real_rw_v0_balanced : balanced real_rw_v0 = true := by decide
 theorem real_rw_v1_balanced : balanced real_rw_v1 = true := by decide
 theorem real_rw_v2_balanced : balanced real_rw_v2 = true := by decide
+theorem real_rw_v3_balanced : balanced real_rw_v3 = true := by decide
 theorem permutation_rw_v0_balanced : balanced permutation_rw_v0 = true := by decide
 theorem permutation_rw_v1_balanced : balanced permutation_rw_v1 = true := by decide
 theorem permutation_rw_v2_balanced : balanced permutation_rw_v2 = true := by decide
+theorem permutation_rw_v3_balanced : balanced permutation_rw_v3 = true := by decide
 theorem real_iwo_v0_balanced : balanced real_iwo_v0 = true := by decide
 theorem real_iwo_v1_balanced : balanced real_iwo_v1 = true := by decide
 theorem real_iwo_v2_balanced : balanced real_iwo_v2 = true := by decide
+theorem real_iwo_v3_balanced : balanced real_iwo_v3 = true := by decide
 theorem real_fa_v0_balanced : balanced real_fa_v0 = true := by decide
 theorem real_fa_v1_balanced : balanced real_fa_v1 = true := by decide
 theorem real_fa_v2_balanced : balanced real_fa_v2 = true := by decide
+theorem real_fa_v3_balanced : balanced real_fa_v3 = true := by decide
 theorem real_bh_v0_balanced : balanced real_bh_v0 = true := by decide
 theorem real_bh_v1_balanced : balanced real_bh_v1 = true := by decide
 theorem real_bh_v2_balanced : balanced real_bh_v2 = true := by decide
+theorem real_bh_v3_balanced : balanced real_bh_v3 = true := by decide
 theorem real_cro_v0_balanced : balanced real_cro_v0 = true := by decide
 theorem real_cro_v1_balanced : balanced real_cro_v1 = true := by decide
 theorem real_cro_v2_balanced : balanced real_cro_v2 = true := by decide
+theorem real_cro_v3_balanced : balanced real_cro_v3 = true := by decide
 theorem ant_system_v0_balanced : balanced ant_system_v0 = true := by decide
 theorem ant_system_v1_balanced : balanced ant_system_v1 = true := by decide
 theorem ant_system_v2_balanced : balanced ant_system_v2 = true := by decide
+theorem ant_system_v3_balanced : balanced ant_system_v3 = true := by decide
 theorem max_min_ant_system_v0_balanced : balanced max_min_ant_system_v0 = true := by decide
 theorem max_min_ant_system_v1_balanced : balanced max_min_ant_system_v1 = true := by decide
 theorem max_min_ant_system_v2_balanced : balanced max_min_ant_system_v2 = true := by decide
+theorem max_min_ant_system_v3_balanced : balanced max_min_ant_system_v3 = true := by decide
 
 end MahfModel.Props.C16
